@@ -58,6 +58,10 @@ Spec == Init /\ [][Next]_vars /\ WF_vars(ProxyStep)
 \* C16 (liveness): after the last fault the proxy becomes quiescent and stays so
 Settles == <>[]Quiescent
 
+\* C16: nothing an announcement does keeps a due refresh from running (with EventsBlockRefresh, defect D23, an event
+\* that waits in the queue does: the refresh fails instead and the control connection is closed)
+RefreshNotBlockedByEvents == (ctrl # "none" /\ timer = "fired") => ENABLED PRefresh
+
 ExportInv == (Len(hist) = MaxFaults + 1 /\ Quiescent) => PrintT(<<"BEH", ToJson(hist)>>)
 \* with the hazard switch on: the fault sequences after which a proxy with that defect has not converged - the
 \* sequences that tell a correct implementation from one with the defect; they are replayed first
